@@ -35,6 +35,11 @@ DamageOps == <<
   [name |-> "flow-not-deeper-nested", kind |-> "doc", frag |-> <<"k", ":", "\n", " ", " ", "j", ":", " ", "[", "a", ",", "\n", " ", " ", "b", "]", "\n">>],
   [name |-> "flow-not-deeper-map", kind |-> "doc", frag |-> <<"k", ":", " ", "{", "a", ":", " ", "1", ",", "\n", "b", ":", " ", "2", "}", "\n">>],
   [name |-> "flow-closer-not-deeper-quoted", kind |-> "doc", frag |-> <<"k", ":", " ", "[", "\"", "a", "\"", "\n", "]", "\n">>],
+  [name |-> "flow-not-deeper-after-plain-nested-seq", kind |-> "doc", frag |-> <<"k", ":", " ", "[", "a", ",", "\n", "[", "b", "]", "]", "\n">>],
+  [name |-> "flow-not-deeper-after-plain-quoted", kind |-> "doc", frag |-> <<"k", ":", " ", "[", "a", ",", "\n", "\"", "b", "\"", "]", "\n">>],
+  [name |-> "flow-not-deeper-plain-continuation", kind |-> "doc", frag |-> <<"k", ":", " ", "[", "a", "\n", "b", "]", "\n">>],
+  [name |-> "flow-not-deeper-comma", kind |-> "doc", frag |-> <<"k", ":", " ", "[", "a", "\n", ",", " ", "b", "]", "\n">>],
+  [name |-> "flow-not-deeper-in-seq", kind |-> "doc", frag |-> <<"-", " ", "[", "a", ",", "\n", "{", "b", ":", " ", "c", "}", "]", "\n">>],
   [name |-> "flow-closer-not-deeper-plain", kind |-> "doc", frag |-> <<"k", ":", " ", "[", "a", "\n", "]", "\n">>],
   [name |-> "quoted-key-spanning-lines", kind |-> "doc", frag |-> <<"\"", "a", "\n", " ", "b", "\"", ":", " ", "v", "\n">>],
   [name |-> "single-quoted-key-spanning-lines", kind |-> "doc", frag |-> <<"'", "a", "\n", " ", "b", "'", ":", " ", "v", "\n">>],
